@@ -1081,6 +1081,173 @@ pub fn run_case_opts(case: &Case, steer_f8: bool) -> CaseOutcome {
     (info, viol)
 }
 
+// ---------------------------------------------------------------------------------------------
+// every catchable signal on its own (enumerated): the history family works over 8 signals; whether EVERY variant of
+// calloop's `Signal` enum is blocked, reported with its own number and unblocked again is settled here, one signal at a
+// time: 27 signals x {new, add_signals, set_signals} x {raise, kill(getpid())}.
+
+#[derive(Serialize, Deserialize, Debug, Clone, Hash, PartialEq, Eq)]
+pub struct OneCase {
+    /// index into ALL_SIGNALS
+    pub sig: u8,
+    /// 0 = Signals::new(&[s]); 1 = new(&[]) + add_signals(&[s]); 2 = new(&[other]) + set_signals(&[s])
+    pub via: u8,
+    pub process: bool,
+}
+
+const ALL_SIGNALS: [(Signal, i32, &str); 27] = [
+    (Signal::SIGHUP, libc::SIGHUP, "HUP"),
+    (Signal::SIGINT, libc::SIGINT, "INT"),
+    (Signal::SIGQUIT, libc::SIGQUIT, "QUIT"),
+    (Signal::SIGILL, libc::SIGILL, "ILL"),
+    (Signal::SIGTRAP, libc::SIGTRAP, "TRAP"),
+    (Signal::SIGABRT, libc::SIGABRT, "ABRT"),
+    (Signal::SIGBUS, libc::SIGBUS, "BUS"),
+    (Signal::SIGFPE, libc::SIGFPE, "FPE"),
+    (Signal::SIGUSR1, libc::SIGUSR1, "USR1"),
+    (Signal::SIGSEGV, libc::SIGSEGV, "SEGV"),
+    (Signal::SIGUSR2, libc::SIGUSR2, "USR2"),
+    (Signal::SIGPIPE, libc::SIGPIPE, "PIPE"),
+    (Signal::SIGALRM, libc::SIGALRM, "ALRM"),
+    (Signal::SIGTERM, libc::SIGTERM, "TERM"),
+    (Signal::SIGCHLD, libc::SIGCHLD, "CHLD"),
+    (Signal::SIGCONT, libc::SIGCONT, "CONT"),
+    (Signal::SIGTSTP, libc::SIGTSTP, "TSTP"),
+    (Signal::SIGTTIN, libc::SIGTTIN, "TTIN"),
+    (Signal::SIGTTOU, libc::SIGTTOU, "TTOU"),
+    (Signal::SIGURG, libc::SIGURG, "URG"),
+    (Signal::SIGXCPU, libc::SIGXCPU, "XCPU"),
+    (Signal::SIGXFSZ, libc::SIGXFSZ, "XFSZ"),
+    (Signal::SIGVTALRM, libc::SIGVTALRM, "VTALRM"),
+    (Signal::SIGPROF, libc::SIGPROF, "PROF"),
+    (Signal::SIGWINCH, libc::SIGWINCH, "WINCH"),
+    (Signal::SIGIO, libc::SIGIO, "IO"),
+    (Signal::SIGSYS, libc::SIGSYS, "SYS"),
+];
+
+static ONE_COUNT: AtomicU32 = AtomicU32::new(0);
+
+extern "C" fn on_one(_signo: libc::c_int, _info: *mut libc::siginfo_t, _uctx: *mut libc::c_void) {
+    ONE_COUNT.fetch_add(1, Ordering::SeqCst);
+}
+
+fn one_set(signo: i32) -> libc::sigset_t {
+    unsafe {
+        let mut set: libc::sigset_t = std::mem::zeroed();
+        libc::sigemptyset(&mut set);
+        libc::sigaddset(&mut set, signo);
+        set
+    }
+}
+
+pub fn run_one_signal(c: &OneCase) -> CaseOutcome {
+    let (sig, signo, name) = ALL_SIGNALS[(c.sig as usize).min(ALL_SIGNALS.len() - 1)];
+    let mut info = CaseInfo { fingerprint: fingerprint(c), nontrivial: true, ..CaseInfo::default() };
+    info.classes.push("each_signal");
+    let bit = 1u64 << (signo - 1);
+    let v = |what: String| Some(Violation::new("C19.each", format!("SIG{name} configured through {}: {what}", ["Signals::new", "add_signals", "set_signals"][(c.via % 3) as usize])).with_sig("C19.each"));
+    // counting handler for this one signal, unblocked, nothing pending
+    let mut old: libc::sigaction = unsafe { std::mem::zeroed() };
+    unsafe {
+        let mut sa: libc::sigaction = std::mem::zeroed();
+        sa.sa_sigaction = on_one as usize;
+        sa.sa_flags = libc::SA_SIGINFO;
+        libc::sigemptyset(&mut sa.sa_mask);
+        assert_eq!(libc::sigaction(signo, &sa, &mut old), 0, "sigaction");
+        libc::pthread_sigmask(libc::SIG_UNBLOCK, &one_set(signo), std::ptr::null_mut());
+    }
+    ONE_COUNT.store(0, Ordering::SeqCst);
+    let viol = (|| {
+        let other = if signo == libc::SIGUSR1 { Signal::SIGUSR2 } else { Signal::SIGUSR1 };
+        let made = catch_unwind(AssertUnwindSafe(|| -> calloop::Result<Signals> {
+            match c.via % 3 {
+                0 => Signals::new(&[sig]),
+                1 => {
+                    let mut s = Signals::new(&[])?;
+                    s.add_signals(&[sig])?;
+                    Ok(s)
+                }
+                _ => {
+                    let mut s = Signals::new(&[other])?;
+                    s.set_signals(&[sig])?;
+                    Ok(s)
+                }
+            }
+        }));
+        let src = match made {
+            Err(_) => return v("the call panicked".into()),
+            Ok(Err(e)) => return v(format!("the call failed: {e}")),
+            Ok(Ok(s)) => s,
+        };
+        if observe_mask() & bit == 0 {
+            return v("the signal is configured but not blocked for the thread".into());
+        }
+        let r = unsafe {
+            if c.process {
+                libc::kill(libc::getpid(), signo)
+            } else {
+                libc::raise(signo)
+            }
+        };
+        assert_eq!(r, 0, "raise/kill failed");
+        if ONE_COUNT.load(Ordering::SeqCst) != 0 {
+            return v("raised while configured, it reached its process-level handler".into());
+        }
+        if observe_pending() & bit == 0 {
+            return v("raised while configured, it is not pending".into());
+        }
+        let mut el: EventLoop<'static, Vec<(i32, i32)>> = EventLoop::try_new().expect("event loop");
+        let tok = match el.handle().insert_source(src, |ev: Event, _, data: &mut Vec<(i32, i32)>| data.push((ev.signal() as i32, ev.code()))) {
+            Ok(t) => t,
+            Err(e) => return v(format!("insert_source failed: {e}")),
+        };
+        let mut got = Vec::new();
+        if let Err(e) = el.dispatch(Some(Duration::ZERO), &mut got) {
+            return v(format!("dispatch failed: {e}"));
+        }
+        let want = vec![(signo, if c.process { SI_USER } else { SI_TKILL })];
+        if got != want {
+            return v(format!("one pending instance, the callback received (signal, si_code) {got:?}, expected {want:?}"));
+        }
+        // removing the source drops it: the signal is unblocked again and has its normal disposition
+        el.handle().remove(tok);
+        if observe_mask() & bit != 0 {
+            return v("the source is gone, the signal is still blocked for the thread".into());
+        }
+        unsafe { libc::raise(signo) };
+        if ONE_COUNT.load(Ordering::SeqCst) != 1 {
+            return v(format!("raised after the source was dropped, its handler ran {} time(s), expected once", ONE_COUNT.load(Ordering::SeqCst)));
+        }
+        None
+    })();
+    unsafe {
+        // drain whatever a failed case left pending into the counting handler, then put the old disposition back
+        libc::pthread_sigmask(libc::SIG_UNBLOCK, &one_set(signo), std::ptr::null_mut());
+        libc::sigaction(signo, &old, std::ptr::null_mut());
+    }
+    (info, viol)
+}
+
+fn each_signal(ctx: &CheckCtx) -> Option<Found> {
+    if let Some(f) = ctx.run_replays::<OneCase, _>("each_signal", run_one_signal) {
+        return Some(f);
+    }
+    for sig in 0..ALL_SIGNALS.len() as u8 {
+        for via in 0..3u8 {
+            for process in [false, true] {
+                let c = OneCase { sig, via, process };
+                let (info, v) = run_one_signal(&c);
+                ctx.col.record(&info, || serde_json::to_value(&c).unwrap());
+                if let Some(v) = v {
+                    return Some(Found { sub: "each_signal".into(), violation: v, case: serde_json::to_value(&c).unwrap(), replay_path: None });
+                }
+            }
+        }
+    }
+    ctx.col.exhaustive("every catchable variant of calloop::signals::Signal (27) x {Signals::new, add_signals, set_signals} x {raise, kill(getpid())}, one signal at a time: blocked while configured, one pending instance reported once with its own number and si_code, unblocked and back to its normal disposition once the source is gone");
+    None
+}
+
 pub fn check(ctx: &CheckCtx) -> Option<Found> {
     match thread_count() {
         Some(1) => {}
@@ -1090,6 +1257,9 @@ pub fn check(ctx: &CheckCtx) -> Option<Found> {
             ));
             return None;
         }
+    }
+    if let Some(f) = each_signal(ctx) {
+        return Some(f);
     }
     let _handlers = Handlers::ensure();
     // replays are run strictly (no steering) so that an open finding stays visible
@@ -1120,7 +1290,11 @@ pub fn check(ctx: &CheckCtx) -> Option<Found> {
     found
 }
 
-pub fn replay(_ctx: &CheckCtx, _sub: &str, case: serde_json::Value) -> Result<Option<Violation>, String> {
+pub fn replay(_ctx: &CheckCtx, sub: &str, case: serde_json::Value) -> Result<Option<Violation>, String> {
+    if sub == "each_signal" {
+        let c: OneCase = serde_json::from_value(case).map_err(|e| e.to_string())?;
+        return Ok(run_one_signal(&c).1);
+    }
     let c: Case = serde_json::from_value(case).map_err(|e| e.to_string())?;
     if thread_count() != Some(1) {
         return Err("C19 replay needs a single-threaded process".into());
